@@ -173,6 +173,22 @@ def run(ctx, anchors=None):
     opcall = [n for n in stepper.nodes() if astq.is_call(n) and n.get("callee") == "StepScript"]
     ctx.inst(bool(first_if) and all(scfg.dominates(first_if[0]["cond"], c) for c in opcall), "R03.3", "commitment-runs-before-script", stepper.loc(first_if[0]) if first_if else stepper.loc(),
              "while a commitment environment exists the stepper iterates it before any script operation")
+    # ---- R03.7 the script version is decided by configure_tx_txin on every path to success (parse_transaction pre-sets
+    # WITNESS_V0 whenever ANY input has a witness, so a branch that does not assign it inherits the wrong version)
+    ctx.rule("R03.7", "every successful path of configure_tx_txin assigns the script version (BASE for the legacy branch)")
+    sv_asg = [n for n in cf.nodes() if n["k"] == "assign" and astq.estr(n["lhs"]) == "sigver"]
+    succ_rets = [n for n in cf.nodes() if n["k"] == "return" and astq.const_value(n.get("e")) == 1]
+    blocks = ccfg.blocks_of_nodes(sv_asg)
+    reach_wo = ccfg.reachable_from(ccfg.entry, removed_blocks=blocks)
+    leak = [r for r in succ_rets if ccfg.position(r) and ccfg.position(r)[0] in reach_wo]
+    ctx.site()
+    ctx.inst(bool(sv_asg) and bool(succ_rets) and not leak, "R03.7", "sigver-assigned-on-every-path", cf.loc(),
+             "every path to `return true` passes an assignment of sigver (%d assignments)" % len(sv_asg),
+             "configure_tx_txin can return true without assigning sigver: the input inherits the version pre-set from the whole transaction "
+             "(WITNESS_V0 if any other input has a witness), so a legacy input of a mixed transaction is checked under BIP143 rules")
+    legacy = [n for n in sv_asg if astq.estr(n["rhs"]).endswith("BASE")]
+    lg = [astq.estr(c) for n in legacy for (c, t) in S.ast_guards(cf, n) if not t]
+    ctx.inst(bool(legacy) and any("wstack.size() > 0" in x for x in lg), "R03.7", "legacy-branch-is-BASE", cf.loc(legacy[0]) if legacy else cf.loc(), "an input without witness is executed as SigVersion::BASE")
     # ---- R03.4 (shared)
     from .. import report
     from . import c01
@@ -235,6 +251,7 @@ def run(ctx, anchors=None):
 
 
 MUTANTS = [
+    dict(name="legacy-sigver-not-assigned", file="instance.cpp", find="        // legacy\n        sigver = SigVersion::BASE;\n", replace="        // legacy\n", expect=["R03.7:sigver-assigned-on-every-path", "R03.7:legacy-branch-is-BASE"]),
     dict(name="vout-by-input-index", file="instance.cpp", find="    spent_outputs.emplace_back(txin->vout[txin_vout_index]);\n    txdata.Init(*tx.get(), std::move(spent_outputs), has_preamble);", replace="    spent_outputs.emplace_back(txin->vout[txin_index]);\n    txdata.Init(*tx.get(), std::move(spent_outputs), has_preamble);", expect=["R03.1:subscript=vout"]),
     dict(name="witness-of-wrong-input", file="instance.cpp", find="    auto& wstack = tx->vin[txin_index].scriptWitness.stack;", replace="    auto& wstack = tx->vin[txin_vout_index].scriptWitness.stack;", expect=["R03.1:subscript=vin"]),
     dict(name="select-ignored", file="instance.cpp", find="            txin_index = select_index;\n            txin_vout_index = tx->vin[select_index].prevout.n;\n        } else {", replace="        }\n        {", expect=["R03.2:select-honoured", "R03.2:select-branch"]),
